@@ -94,6 +94,9 @@ func (e *E) JSON() (interface{}, bool) {
 	case "lit":
 		return litJSON(e.V), true
 	case "ref":
+		if e.Legacy {
+			return e.S, true
+		}
 		return "${" + e.S + "}", true
 	case "raw":
 		return "${" + e.S + "}", true
